@@ -772,6 +772,8 @@ class Engine:
         self.name_functional_arrays(s)
         entry = s.clone()
         entry.guards = list(s.guards)
+        if getattr(spec, 'entry_hints', None) is not None:
+            self.ghost_steps(fr, s, spec.entry_hints(self.loop_ctx(fr, s, entry, {tname: a})), node.lineno)
         # 1. invariant holds on entry (index = a)
         self.check_inv(fr, s, spec, entry, {tname: a}, 'inv-init', node.lineno)
         # 2. arbitrary iteration
